@@ -1,1 +1,64 @@
-From RxVerif Require Import Base.Prelude Ops.Machine Ops.Multi Ops.Combinators.
+(* C10 -- sequential composition runs one source at a time, in order.
+   Machines: Ops/Combinators.v (x_concat, x_catch, x_retry, x_repeat, x_oern,
+   x_while_do, x_do_while, x_catch_handler), run by the runner of Ops/Multi.v. *)
+From RxVerif Require Import Base.Prelude Ops.Machine Ops.Multi Ops.MultiFacts Ops.RunLemmas
+  Ops.Combinators Ops.SequentialFacts.
+
+(* for EVERY input sequence (arbitrary interleaving of all sources, conforming
+   or not), at every moment at most one source is subscribed *)
+Theorem C10_concat_one_source_at_a_time : forall A n (ins : list (Z * inp A)),
+  (length (r_live (snd (run (x_concat n) ins))) <= 1)%nat.
+Proof. exact @concat_one_at_a_time. Qed.
+Print Assumptions C10_concat_one_source_at_a_time.
+
+(* the output is the concatenation of the consumed sources' elements; an error
+   is passed on and ends the sequence; after the last source: completion *)
+Theorem C10_concat_closed_form : forall A (srcs : list (list A * term)),
+  emitted (fst (run (x_concat (length srcs)) (seq_env_from 0 srcs))) = concat_spec srcs.
+Proof. exact @concat_closed_form. Qed.
+Print Assumptions C10_concat_closed_form.
+
+(* counts, for EVERY input sequence *)
+Theorem C10_retry_subscribes_at_most_n : forall A c (ins : list (Z * inp A)),
+  (count_subs (map snd (fst (run (x_retry (A:=A) (Some c)) ins))) <= c)%nat.
+Proof. exact @retry_subscribes_at_most. Qed.
+Print Assumptions C10_retry_subscribes_at_most_n.
+
+Theorem C10_repeat_subscribes_at_most_n : forall A c (ins : list (Z * inp A)),
+  (count_subs (map snd (fst (run (x_repeat (A:=A) (Some c)) ins))) <= c)%nat.
+Proof. exact @repeat_subscribes_at_most. Qed.
+Print Assumptions C10_repeat_subscribes_at_most_n.
+
+(* a new subscription is made only in the handler of the termination the
+   operator continues on *)
+Theorem C10_concat_next_only_on_completion : forall A n cur now (i : inp A),
+  (0 < count_csub (snd (fst (x_step (x_concat n) cur now i))))%nat -> exists k, i = ISrc k Done.
+Proof. exact @concat_subscribes_on_completion. Qed.
+Theorem C10_catch_next_only_on_error : forall A n st now (i : inp A),
+  (0 < count_csub (snd (fst (x_step (x_catch n) st now i))))%nat -> exists k e, i = ISrc k (Err e).
+Proof. exact @catch_subscribes_on_error. Qed.
+Theorem C10_retry_next_only_on_error : forall A c used now (i : inp A),
+  (0 < count_csub (snd (fst (x_step (x_retry c) used now i))))%nat -> exists k e, i = ISrc k (Err e).
+Proof. exact @retry_subscribes_on_error. Qed.
+Theorem C10_repeat_next_only_on_completion : forall A c used now (i : inp A),
+  (0 < count_csub (snd (fst (x_step (x_repeat c) used now i))))%nat -> exists k, i = ISrc k Done.
+Proof. exact @repeat_subscribes_on_completion. Qed.
+Theorem C10_oern_next_only_on_termination : forall A n cur now (i : inp A),
+  (0 < count_csub (snd (fst (x_step (x_oern n) cur now i))))%nat ->
+  exists k e, i = ISrc k e /\ is_terminal e = true.
+Proof. exact @oern_subscribes_on_termination. Qed.
+Print Assumptions C10_concat_next_only_on_completion.
+Print Assumptions C10_catch_next_only_on_error.
+Print Assumptions C10_retry_next_only_on_error.
+Print Assumptions C10_repeat_next_only_on_completion.
+Print Assumptions C10_oern_next_only_on_termination.
+
+Example C10_witness_concat :
+  emitted (fst (run (x_concat 2) (seq_env_from 0 [([1; 2], TDone); ([3], TDone)])))
+  = [Next 1; Next 2; Next 3; Done].
+Proof. vm_compute. reflexivity. Qed.
+Example C10_witness_repeat_exactly_n :
+  count_subs (map snd (fst (run (x_repeat (Some 3%nat))
+     [(0, ISrc 0%nat (Next 5)); (0, ISrc 0%nat Done); (0, ISrc 0%nat Done); (0, ISrc 0%nat Done);
+      (0, ISrc 0%nat (Next 6))]))) = 3%nat.
+Proof. vm_compute. reflexivity. Qed.
